@@ -298,7 +298,7 @@ fn enc_of_param(p: &gensrc::SigParam) -> Option<Enc> {
     })
 }
 
-fn abi_of_sig(sig: &str) -> Option<Vec<Enc>> { gensrc::parse_sig(sig).iter().map(enc_of_param).collect() }
+pub(crate) fn abi_of_sig(sig: &str) -> Option<Vec<Enc>> { gensrc::parse_sig(sig).iter().map(enc_of_param).collect() }
 
 // =============================================================================================
 // the oracle: debug info vs written binary
